@@ -412,6 +412,29 @@ func c15Trees(t core.Tier) []c15Tree {
 			}
 		}
 	}
+	// calls nested inside the argument lists of calls and inside IN lists, at
+	// every argument position (a printer that shares scratch space between the
+	// nesting levels shows up here)
+	{
+		up := func(e *ref.Expr) *ref.Expr { return ref.Call("upper", e) }
+		lo := func(e *ref.Expr) *ref.Expr { return ref.Call("lower", e) }
+		for _, e := range []*ref.Expr{
+			ref.Bin("=", ref.Call("join", ref.S("-"), up(ref.Key()), lo(ref.Value())), ref.S("K-v")),
+			ref.Bin("=", ref.Call("join", lo(ref.S("X")), ref.Key(), up(ref.Call("join", ref.S("+"), ref.Value(), lo(ref.Key())))), ref.S("q")),
+			ref.Bin("=", ref.Call("substr", ref.Value(), ref.Call("strlen", ref.Key()), ref.Call("strlen", up(ref.Value()))), ref.S("x")),
+			ref.In(ref.Key(), ref.S("a"), up(ref.S("b")), lo(ref.S("C"))),
+			ref.In(up(ref.Key()), up(ref.S("a")), ref.Call("join", ref.S(","), ref.S("p"), lo(ref.S("Q"))), ref.S("z")),
+			ref.Btw(ref.Key(), lo(ref.S("A")), ref.Call("join", ref.S(""), up(ref.S("z")), lo(ref.S("Z")))),
+			ref.Bin(">", ref.Call("l2_distance", ref.Call("list", ref.N(1), ref.Call("strlen", ref.Key())), ref.Call("list", ref.Call("strlen", ref.Value()), ref.N(2))), ref.N(0)),
+			ref.Bin("=", ref.Idx(ref.Call("split", ref.Call("join", ref.S(","), ref.Key(), up(ref.Value())), lo(ref.S(","))), ref.N(1)), ref.S("V")),
+		} {
+			k := canonTree(e)
+			if !seen[k] {
+				seen[k] = true
+				out = append(out, c15Tree{e: e, t: 'B'})
+			}
+		}
+	}
 	// references to named select fields: the printed form must name the same
 	// field again, whatever the name looks like (reserved word, upper case,
 	// digits, blanks, operator characters)
